@@ -119,3 +119,38 @@ Proof.
   - apply VR_inj in E; try assumption; try (apply phi_range; assumption); try (apply theta_range; assumption).
     destruct E as [P T]. apply phi_inj in P; [|lia]. apply theta_inj in T; [|exact Hc]. subst. reflexivity.
 Qed.
+
+(* ---- the unwelded sphere: fresh vertex k copies calculatedPositions[sphereU_cls k], so two fresh vertices coincide exactly
+        when sphereU_cls gives them the same welded vertex ---- *)
+Lemma sphereU_cls_lt : forall r c k, (2 <= r)%N -> (1 <= c)%N -> (k < sphereU_nverts r c)%N ->
+  (sphereU_cls r c k < sphere_nverts r c)%N.
+Proof.
+  intros r c k Hr Hc Hk. unfold sphereU_nverts in Hk. unfold sphereU_cls, sphere_nverts.
+  assert (R1 : (c * (r - 1) = c * (r - 2) + c)%N) by (replace (r - 1)%N with (r - 2 + 1)%N by lia; lia).
+  pose proof (N.le_0_l (c * (r - 2))) as P0. pose proof (N.le_0_l (c * (r - 1))) as P1.
+  destruct (N.ltb_spec k (6 * c)) as [L|L].
+  - assert (I : (k / 6 < c)%N) by (apply N.div_lt_upper_bound; lia).
+    assert (M : ((k / 6 + 1) mod c < c)%N) by (apply N.mod_lt; lia).
+    set (i := (k / 6)%N) in *. set (m := ((i + 1) mod c)%N) in *.
+    clearbody i m. destruct (k mod 6)%N as [|[[[p|p|]|[p|p|]|]|[[p|p|]|[p|p|]|]|]]; cbv beta iota; lia.
+  - set (q := ((k - 6 * c) / 4)%N).
+    assert (Q : (q < c * (r - 2))%N) by (apply N.div_lt_upper_bound; lia).
+    assert (J : (q / c < r - 2)%N) by (apply N.div_lt_upper_bound; [lia|exact Q]).
+    assert (I : (q mod c < c)%N) by (apply N.mod_lt; lia).
+    assert (M : ((q mod c + 1) mod c < c)%N) by (apply N.mod_lt; lia).
+    assert (B : ((q / c + 1) * c <= (r - 2) * c)%N) by (apply N.mul_le_mono_r; lia).
+    assert (B0 : (q / c * c <= (q / c + 1) * c)%N) by (apply N.mul_le_mono_r; lia).
+    set (j := (q / c)%N) in *. set (i := (q mod c)%N) in *. set (m := ((i + 1) mod c)%N) in *.
+    set (x := (j * c)%N) in *. set (y := ((j + 1) * c)%N) in *. replace ((r - 2) * c)%N with (c * (r - 2))%N in B by lia.
+    set (z := (c * (r - 2))%N) in *.
+    clearbody j i m x y z. clear Q. clearbody q. destruct ((k - 6 * c) mod 4)%N as [|[[p|p|]|[p|p|]|]]; cbv beta iota; lia.
+Qed.
+
+Theorem sphereU_classes_from_positions : forall r c rad k k', (2 <= r)%N -> (1 <= c)%N -> 0 < rad ->
+  (k < sphereU_nverts r c)%N -> (k' < sphereU_nverts r c)%N ->
+  (sphU_posR r c rad k = sphU_posR r c rad k' <-> sphereU_cls r c k = sphereU_cls r c k').
+Proof.
+  intros r c rad k k' Hr Hc Hrad Hk Hk'. unfold sphU_posR. split; intro E.
+  - apply (sphere_vertices_distinct r c rad); try assumption; apply sphereU_cls_lt; assumption.
+  - rewrite E. reflexivity.
+Qed.
